@@ -31,6 +31,7 @@ import (
 	"net/http"
 	"net/http/httptest"
 	"net/url"
+	"os"
 	"runtime"
 	"strings"
 	"sync"
@@ -370,13 +371,16 @@ func c13Setup() *c13Env {
 				}
 				return ss.SendMsg(mk(out, strings.Join(ts, "+")))
 			default: // Bidi
-				if role == "leave" {
+				if role == "leave" || role == "leave-blocked" {
 					// the handler returns at once and leaves a goroutine behind that keeps receiving -- what the proxy's
 					// pump does when a backend ends the call before the client has finished sending
 					go func() {
 						for ss.RecvMsg(dynamicpb.NewMessage(in)) == nil {
 						}
 					}()
+					if role == "leave-blocked" {
+						time.Sleep(30 * time.Millisecond) // the receive is inside the body's Read when the handler returns
+					}
 					return nil
 				}
 				for {
@@ -696,7 +700,7 @@ func c13RunB(o *out, input string) {
 // ---------- C13S ----------
 
 var c13Kinds = []string{"http-json", "http-json-gzip", "http-proto", "http-up-gzip", "http-up", "http-down",
-	"grpc", "grpc-gzip", "grpc-bidi", "grpc-bidi-gzip", "grpc-web", "blob-get", "blob-put", "grpc-cancel", "proxy-unary", "proxy-json", "http-path", "proxy-bidi", "proxy-bidi-fail", "proxy-bidi-gzip", "grpc-leftover", "proxy-http-gzip-fail"}
+	"grpc", "grpc-gzip", "grpc-bidi", "grpc-bidi-gzip", "grpc-web", "blob-get", "blob-put", "grpc-cancel", "proxy-unary", "proxy-json", "http-path", "proxy-bidi", "proxy-bidi-fail", "proxy-bidi-gzip", "grpc-leftover", "proxy-http-gzip-fail", "webtext-leftover"}
 
 func (e *c13Env) post(path, ct, accept string, body []byte, gz bool) ([]byte, int, error) {
 	if gz {
@@ -986,6 +990,27 @@ func (e *c13Env) one(kind, id string, r *rng) string {
 		req.ContentLength = -1
 		e.mux.ServeHTTP(httptest.NewRecorder(), req)
 		return ""
+	case "webtext-leftover":
+		// the same over gRPC-web in its text form, the upload kept open by the client (a pipe: the receive left behind
+		// is blocked on the request body): the call ends when the handler has returned, whatever the client still holds
+		pr, pw := io.Pipe()
+		defer pw.Close()
+		req := httptest.NewRequest("POST", "/verif.c13.Iso/Bidi", pr)
+		req.Header.Set("Content-Type", "application/grpc-web-text")
+		req.Header.Set("X-C13-Role", "leave-blocked")
+		req.ContentLength = -1
+		done := make(chan struct{})
+		rec := httptest.NewRecorder()
+		go func() { e.mux.ServeHTTP(rec, req); close(done) }()
+		select {
+		case <-done:
+			if os.Getenv("VERIF_DEBUG") != "" {
+				fmt.Fprintf(os.Stderr, "webtext-leftover: %d %q %v\n", rec.Code, rec.Body.String(), rec.Header())
+			}
+			return ""
+		case <-time.After(5 * time.Second):
+			return fmt.Sprintf("%s id=%s: ServeHTTP has not returned 5 s after the handler did (a receive the handler left behind is still blocked on the request body)", kind, id)
+		}
 	case "proxy-bidi", "proxy-bidi-fail":
 		// a proxied bidi stream; in the failing variant the backend ends the call with its own status
 		// while the client is still sending: the client must be told that status
@@ -1234,6 +1259,7 @@ func c13Gen(o *out, r *rng, tier string) {
 		c13Stress(o, "grpc-leftover", 4, 60, seed+5)
 		c13Stress(o, "proxy-bidi-fail", 8, 40, seed+6)
 		c13Stress(o, "proxy-http-gzip-fail", 8, 40, seed+7)
+		c13Stress(o, "webtext-leftover", 4, 20, seed+8)
 		return
 	case "race-thorough":
 		for i := uint64(0); i < 6; i++ {
